@@ -5,7 +5,7 @@ namespace TDV.PM
 variable {c : Cfg} {s s' : State}
 
 def RPc.rank : RPc → Nat
-  | .init => 7 | .top => 6 | .acq => 5 | .next => 4 | .insrc => 3 | .app _ _ => 2 | .put _ => 1 | .exited => 0
+  | .init => 8 | .top => 7 | .acq => 6 | .next => 5 | .insrc => 4 | .app _ _ => 3 | .put _ => 2 | .ret => 1 | .exited => 0
 
 /-- worker: 60 per held result + control rank -/
 def WPc.w : WPc → Nat
@@ -15,7 +15,8 @@ def SPc.rank : SPc → Nat
   | .have _ => 4 | .drain => 3 | .top => 2 | .get => 1 | .exited => 0 | .off => 0
 
 def CPc.rank : CPc → Nat
-  | .top => 10 | .mp => 9 | .chk => 8 | .set1 => 7 | .get => 7 | .set2 => 6 | .rel _ => 6 | .pop _ => 5
+  | .top => 12 | .mp => 11 | .chk => 10 | .set1 => 9 | .get => 9 | .set2 => 8 | .rel _ => 8 | .pop _ => 7
+  | .dchk1 => 7 | .dchk2 => 6 | .dset1 => 5 | .dset2 => 4
   | .boot => 4 | .idle => 3 | .shut1 => 2 | .closed => 1
 
 def CPc.holdsN : CPc → Nat
@@ -49,6 +50,7 @@ theorem variant_R (h : Inv c s) {a : Action} (hs : stepR c s a = some s') (ht : 
   case rPut =>
     obtain ⟨m, h1, rfl⟩ := spec_rPut.mp hs
     cases m.pay <;> (simp only [mu, h1, RPc.rank, RPc.holds, List.length_append, List.length_singleton]; omega)
+  case rRet => obtain ⟨h1, rfl⟩ := spec_rRet.mp hs; simp only [mu, h1, RPc.rank, RPc.holds]; omega
 
 theorem variant_W (_h : Inv c s) {a : Action} (hs : stepW c s a = some s') (ht : a.isTimeout = false) :
     mu c s' < mu c s := by
@@ -128,7 +130,7 @@ theorem variant_S (_h : Inv c s) {a : Action} (hs : stepS c s a = some s') (ht :
       have := (bufTake_some _ _ _ _ ht').2.2.1
       simp only [mu, h1, SPc.rank, SPc.holds, List.length_append, List.length_singleton]; omega
 
-theorem variant_C (_h : Inv c s) {a : Action} (hs : stepC c s a = some s') (ht : a.isTimeout = false)
+theorem variant_C (h : Inv c s) {a : Action} (hs : stepC c s a = some s') (ht : a.isTimeout = false)
     (hc : a ≠ .cCall) : mu c s' < mu c s := by
   cases a <;> try (simp [stepC] at hs; done)
   case cBoot => obtain ⟨h1, _, rfl⟩ := spec_cBoot.mp hs; simp only [mu, h1, CPc.rank, CPc.holdsN]; omega
@@ -159,6 +161,16 @@ theorem variant_C (_h : Inv c s) {a : Action} (hs : stepC c s a = some s') (ht :
   case cPop =>
     obtain ⟨m, y, h1, _, rfl⟩ := spec_cPop.mp hs
     simp only [mu, h1, CPc.rank, CPc.holdsN]; omega
+  case cDeadIsSet =>
+    obtain ⟨h1, rfl⟩ := spec_cDeadIsSet.mp hs
+    have hst := stop_false_of h (by simp [h1])
+    simp only [hst, Bool.false_eq_true, if_false, mu, h1, CPc.rank, CPc.holdsN]; omega
+  case cDeadMpIsSet =>
+    obtain ⟨h1, rfl⟩ := spec_cDeadMpIsSet.mp hs
+    have hmp := mpstop_false_of h (stop_false_of h (by simp [h1]))
+    simp only [hmp, Bool.false_eq_true, if_false, mu, h1, CPc.rank, CPc.holdsN]; omega
+  case cDeadSet => obtain ⟨h1, rfl⟩ := spec_cDeadSet.mp hs; simp only [mu, h1, CPc.rank, CPc.holdsN]; omega
+  case cDeadMpSet => obtain ⟨h1, rfl⟩ := spec_cDeadMpSet.mp hs; simp only [mu, h1, CPc.rank, CPc.holdsN]; omega
   case cShutSet => obtain ⟨h1, rfl⟩ := spec_cShutSet.mp hs; simp only [mu, h1, CPc.rank, CPc.holdsN]; omega
   case cShutMpSet => obtain ⟨h1, rfl⟩ := spec_cShutMpSet.mp hs; simp only [mu, h1, CPc.rank, CPc.holdsN]; omega
 
